@@ -1,4 +1,5 @@
 import PyGam.Proofs.Dists
+import PyGam.Gen.Tables
 /-!
 # C06 — each family's variance function, deviance, log-density, scale and sampler agree
 
@@ -196,5 +197,11 @@ example : validDom .invGauss 1 (1/2) 3 := by norm_num [validDom]
 example : validDom .normal 1 (-1) 3 := trivial
 example : varFn .binomial (5:ℝ) (3/2) ≠ 0 := by norm_num [varFn]
 example : (0:ℝ) < 1/4 ∧ (5:ℝ) ≠ 0 := by norm_num
+
+/-! ### tie to the source by translation -/
+
+/-- the distribution registry of the source is the one modelled by `Family` -/
+theorem gen_distribution_names :
+    Gen.distributionNames = some ["binomial", "gamma", "inv_gauss", "normal", "poisson"] := by decide
 
 end PyGam.C06
